@@ -61,6 +61,8 @@ MC_ITER = [_mc("RBTIter", "MCRBTIter", "red-black iterator over all 6-key trees:
            _mc("AVLIter", "MCAVLIter", "AVL iterator (Node.Next/Prev = walk1) over all 6-key trees: CursorInv", cfg_thorough="MCAVLIter_thorough.cfg")]
 MC_JSON = [_mc("MCJSON", "MCJSON_" + d, "abstract loads, discipline %s: Sound, NoSurvivor, RoundTrip" % d)
            for d in ("seq", "ring", "stack", "heap", "unordered", "linkedset", "sortedset", "unorderedmap", "sortedmap", "linkedmap", "unorderedbidi", "sortedbidi")]
+MC_LOADERS = [_mc("MCLoaders", "MCLoaders_" + d, "loaders model (serialization.go as repaired), discipline %s: LoadsAreOK (refines AbsJSON!LoadOK), SomeOutcome, RoundTrip" % d)
+              for d in ("seq", "ring", "stack", "heap", "unordered", "linkedset", "sortedset", "unorderedmap", "sortedmap", "linkedmap", "unorderedbidi", "sortedbidi")]
 MC_ALG = [_mc("MCAlg", "MCAlg", "set algebra loops for all 256 pairs of subsets of a 4-element universe + aliased operands: Exact, OperandsUnchanged")]
 MC_ENUM = [_mc("MCEnum", "MCEnum", "laws of AbsEnum over all sequences of length <= 4 and every family member")]
 MC_ALIAS = [_mc("MCAlias", "MCAlias", "aliasing machine: NoSharing, ScribbleLeavesContainer, MutateLeavesSnapshots")]
@@ -99,7 +101,7 @@ PLAN = {
                 mc=MC_LH),
     "C11": dict(level="model_checking", design="6 C11",
                 traces=[dict(job="json", spec="TraceJSON", together=True)],
-                mc=MC_JSON, trusted=["encoding/json (validity, top-level kind, json.Marshal comparison)"]),
+                mc=MC_JSON + MC_LOADERS, trusted=["encoding/json (validity, top-level kind, json.Marshal comparison)"]),
     "C12": dict(level="model_checking", design="6 C12",
                 traces=[dict(job="json", spec="TraceJSON", together=True),
                         dict(job="jf", spec="TraceSeq", prop="C03", kinds=["arraylist", "singlylinkedlist", "doublylinkedlist"], together=True),
@@ -111,7 +113,7 @@ PLAN = {
                         dict(job="seq", spec="TraceSeq"), dict(job="que", spec="TraceQue"), dict(job="heap", spec="TraceHeap"),
                         dict(job="set", spec="TraceSet"),
                         dict(job="map", spec="TraceMap", kinds=["hashmap", "treemap", "linkedhashmap", "hashbidimap", "treebidimap", "avltree", "btree"])],
-                mc=MC_JSON, trusted=["encoding/json as reference decoder of the input texts (denotation)"]),
+                mc=MC_JSON + MC_LOADERS, trusted=["encoding/json as reference decoder of the input texts (denotation)"]),
     "C13": dict(level="model_checking", design="6 C13",
                 traces=[dict(job="alg", spec="TraceAlg")],
                 mc=MC_ALG),
